@@ -430,7 +430,8 @@ func twoCallers(out *bufio.Writer, r *rand.Rand, thorough bool) (n, bad int) {
 		return
 	}
 	pairs := [][2]string{{"listOffsets", "listOffsets"}, {"heartbeat", "offsetCommit"}, {"offsetFetch", "heartbeat"},
-		{"findCoordinator", "listGroups"}, {"listOffsets", "syncGroup"}, {"leaveGroup", "listOffsets"}}
+		{"findCoordinator", "listGroups"}, {"listOffsets", "syncGroup"}, {"leaveGroup", "listOffsets"},
+		{"fetch", "heartbeat"}, {"heartbeat", "fetch"}} // a Batch holds the read lock until it is closed
 	for _, pr := range pairs {
 		for _, errs := range [][]int16{nil, {6}} {
 			opA, opB := connfake.OpByName(pr[0]), connfake.OpByName(pr[1])
@@ -445,6 +446,14 @@ func twoCallers(out *bufio.Writer, r *rand.Rand, thorough bool) (n, bad int) {
 				}
 				c, br := connfake.Start(topic, connfake.VersionTable(nil))
 				c.SetDeadline(time.Now().Add(2 * time.Second))
+				if opA.Name == "fetch" || opB.Name == "fetch" {
+					// fetch negotiates its version on first use: get that exchange out of the way (it would be held too)
+					f := connfake.OpByName("fetch")
+					wf := &connfake.W{}
+					f.Build(f.Versions[0], wf, r, &connfake.Shape{Topic: topic})
+					br.Push(f.Key, connfake.Resp{Body: wf.B, Cut: -1})
+					f.Call(c, &connfake.Shape{Topic: topic})
+				}
 				br.Push(opA.Key, connfake.Resp{Body: wa.B, Cut: -1})
 				br.Push(opB.Key, connfake.Resp{Body: wb.B, Cut: -1})
 				cut := k
@@ -465,8 +474,9 @@ func twoCallers(out *bufio.Writer, r *rand.Rand, thorough bool) (n, bad int) {
 					}()
 					return ch
 				}
+				n0 := len(br.Log())
 				chA := call(opA)
-				for i := 0; i < 2000 && len(br.Log()) < 1; i++ {
+				for i := 0; i < 2000 && len(br.Log()) < n0+1; i++ {
 					time.Sleep(100 * time.Microsecond)
 				}
 				chB := call(opB)
